@@ -162,7 +162,7 @@ class DhtmlxGantt:
             },
             ensure_ascii=False,
             indent=2
-        )
+        ).replace('<', '\\u003c')  # the text goes into a <script> element: no "</script>" or "<!--" inside it
 
     def to_html(self):
 
